@@ -75,8 +75,16 @@ def extendStepM (D : Dataset) (g : Graph) (μ0 : Row n) (v : Nat) (e : Expr) (an
   | none => some c
   | some t =>
     match c.get v with
-    | some y => if y = t then some c else none
+    | some y => if y = t then some (c.set v t) else none
     | none => some (c.set v t)
+
+theorem Row.set_same {μ : Row n} {v : Nat} {t : Term} (h : μ.get v = some t) : μ.set v t = μ := by
+  apply Row.ext_get
+  intro w
+  rw [Row.get_set]
+  split
+  · next hw => rw [← hw.1, h]
+  · rfl
 
 /-- the specification's Extend on one solution -/
 def extendStepS (D : Dataset) (g : Graph) (v : Nat) (e : Expr) (μ : Row n) : Row n :=
@@ -131,7 +139,8 @@ theorem pushdown_extend {D : Dataset} {g : Graph} {μ0 : Row n} {Ω XP : List (R
         · subst hyt
           have : (μ.set v y).compat μ0 = true :=
             (Row.compat_set_iff hc hμv).mpr (fun z hz => by rw [h0] at hz; cases hz; rfl)
-          simp [pushOne, this, Row.merge_set_same hμv h0]
+          have hg : (μ0.merge μ).get v = some y := by rw [Row.get_merge, hμv]; simpa using h0
+          simp [pushOne, this, Row.merge_set_same hμv h0, Row.set_same hg]
         · have : (μ.set v t).compat μ0 = false := by
             cases hcc : (μ.set v t).compat μ0 with
             | false => rfl
